@@ -137,6 +137,8 @@ ls.ensure("ports ascending", lambda cx, result, self, line: z3.And(
     ascending(cx.get(self, "_ports"), strict=False),
     z3.Implies(_op(cx, self) != "eq", ascending(cx.get(self, "_ports"))),
     z3.Implies(_op(cx, self) == "eq", same_list(cx.get(self, "_ports"), cx.get(self, "_items")))))
+# the object invariant that the shadow contracts (C03/C04/C11) require of every Port: no operator => no ports
+ls.ensure("Inv(Port) of c_shadow", lambda cx, result, self, line: z3.Implies(_op(cx, self) == "", cx.get(self, "_ports").n == 0))
 ls.ensure("range text sound", lambda cx, result, self, line: z3.Implies(cx.get(self, "_ports").n > 0, S.forall_int(
     lambda x: z3.Implies(covered(result_tokens(cx.get(self, "_sport")), x), _mem(cx.get(self, "_ports"), x)))))
 ls.ensure("range text complete", lambda cx, result, self, line: z3.Implies(cx.get(self, "_ports").n > 0, S.forall(
